@@ -116,6 +116,11 @@ func (w *HttpWorker) Process(data []byte, body []byte) (bool, error) {
 		return false, err
 	}
 
+	// a receiver whose data is json null decodes into a nil pointer
+	if httpData == nil {
+		return false, fmt.Errorf("invalid receiver data %s", data)
+	}
+
 	req, err := http.NewRequest("POST", httpData.Url, bytes.NewReader(body))
 	if err != nil {
 		return false, err
